@@ -34,7 +34,20 @@ def sh(cmd, timeout=3000, cwd=VERIF, env=None):
 
 
 def build(pid: str):
-    """Returns dict(proof_ok, driver_ok, log, assumptions, obligations)."""
+    """Returns dict(proof_ok, driver_ok, log, assumptions, obligations).  Builds are serialised across concurrently
+    running checks (one make at a time in coq/)."""
+    import fcntl
+
+    os.makedirs(os.path.join(VERIF, "work"), exist_ok=True)
+    with open(os.path.join(VERIF, "work", ".build.lock"), "w") as lock:
+        fcntl.flock(lock, fcntl.LOCK_EX)
+        try:
+            return _build(pid)
+        finally:
+            fcntl.flock(lock, fcntl.LOCK_UN)
+
+
+def _build(pid: str):
     info = {"proof_ok": False, "driver_ok": False, "log": "", "assumptions": [], "obligations": 0,
             "theorems": []}
     rc, out = sh(["/venv/bin/python", os.path.join(HERE, "gen_tables.py")], env=dict(os.environ, PYTHONPATH="/repo/src"))
